@@ -53,4 +53,5 @@ def main(tier):
     chk.run("R-ELEMSIZE", VX.elemsize, cx.repo, cx.schema, cx.sites, clauses=("zero", "huge"), floor=3)
     chk.run("R-ARRAYELEM", WN.arrayelem, cx.cpp, floor=6)
     chk.run("R-MIRROR", C.mirror, cx.cpp, floor=8)
+    chk.run("R-PARTIALGUARD", C.partialguard, cx.repo, cx.templates, floor=4)
     return chk.finish()
